@@ -5,13 +5,15 @@
     way the dom computes [as_expanded_name]: look the prefix -- "xmlns" for none -- up among the
     in-scope namespace nodes by node name) is the name the specification computes from the
     namespace rows of the table ([s_name]).  Holds for every store satisfying the tree invariant
-    with a document element and no document type (the latter only because the specification finds
-    the element of an attribute by [s_parent]).  This removes the hypothesis [NamesOk] from the
-    bridge theorems: it is a theorem about the view, for all string facts. *)
+    and the order invariant, with a document element (document types included: the specification
+    finds the element of an attribute by [s_parent], which is the parent observation on every
+    tree node, [spec_parent] of Proofs/XPathRefineAxes.v).  This removes the hypothesis [NamesOk]
+    from the bridge theorems: it is a theorem about the view, for all string facts. *)
 From Coq Require Import List NArith Bool Lia.
 From XmlRs Require Import Base.CPred.
 From XmlRs Require Import Spec.XPathCore Model.XPathAst Model.XDoc Model.XPathEval Spec.XPath10
-  Proofs.XPathNav Proofs.XPathCanon Proofs.XPathRefine Proofs.XPathRefinePaths.
+  Proofs.XPathNav Proofs.XPathCanon Proofs.XPathRefine Proofs.XPathRefineTree Proofs.XPathRefineAxes
+  Proofs.XPathRefinePaths.
 From XmlRs Require Import Model.Store Model.StoreView
   Proofs.DomBase Proofs.DomTree Proofs.DomNav Proofs.DomOrder
   Proofs.StoreViewBase Proofs.StoreViewWalk Proofs.StoreXDoc Proofs.StoreXDocShape.
@@ -134,10 +136,33 @@ Proof.
   rewrite (lookup_agrees pre n it post _ E Hn K), norm_key. reflexivity.
 Qed.
 
-(** ** attributes *)
+(** ** every row of the table but the namespace nodes and the document type is a node of the tree *)
 Hypothesis HasEl : doc_element s <> None.
-Hypothesis NoDt : doc_decl s = None.
+Hypothesis O : OrderInv s.
 
+Let Hinv : DocInv doc := view_inv F merged s T HasEl O.
+Let Hshape : SpecShape doc := view_shape F merged s T HasEl.
+
+Lemma view_T : forall n i, (N.to_nat i < n)%nat -> valid doc i ->
+  XDoc.kind doc i <> KNamespace -> XDoc.kind doc i <> KDocumentType -> XPathRefineTree.T doc i.
+Proof.
+  induction n as [|n IH]; intros i Hlt V Kn Kd; [lia|].
+  destruct (N.eq_dec i doc_root) as [->|Hne]; [apply (T_root doc Hinv Hshape)|].
+  destruct (view_has_parent F merged s T i V Kn Hne) as [p Hp].
+  destruct (wf_parent doc (inv_wf doc Hinv) i p V Hp) as [Vp Hpi].
+  destruct (view_parent_lists F merged s T i p V Kn Hp) as [[Hc Hk]|[Hk Ha]].
+  - assert (Tp : XPathRefineTree.T doc p).
+    { apply (IH p); [lia | exact Vp | |]; destruct Hk as [-> | ->]; discriminate. }
+    apply (T_child doc Hinv Hshape p i Tp). unfold xchildren.
+    assert (Hf : In i (filter (fun c => negb (nkind_eqb (XDoc.kind doc c) KDocumentType)) (child_nodes doc p))).
+    { apply filter_In. split; [exact Hc|]. destruct (XDoc.kind doc i); try reflexivity. contradiction. }
+    destruct Hk as [-> | ->]; exact Hf.
+  - assert (Tp : XPathRefineTree.T doc p).
+    { apply (IH p); [lia | exact Vp | |]; rewrite Hk; discriminate. }
+    apply (T_attr doc Hinv Hshape p i Tp Ha).
+Qed.
+
+(** ** attributes *)
 Lemma attr_name_ok pre b bit post : L = pre ++ KNode (Plain b) :: post -> get s b = Some bit -> ikind bit = KAt ->
   match name_of doc (N.of_nat (length pre)) with
   | XName l p u => s_name doc (Row (N.of_nat (length pre))) = Some (l, norm_prefix p, u)
@@ -168,7 +193,8 @@ Proof.
   assert (Hk : XDoc.kind doc (N.of_nat (length pre)) = KAttribute).
   { unfold XDoc.kind. rewrite G. cbn [row_of]. rewrite Hb. cbn [n_kind]. rewrite K. reflexivity. }
   assert (Hpar : s_parent doc (Row (N.of_nat (length pre))) = Some (Row (N.of_nat (length pre1)))).
-  { rewrite (view_parents F merged s T HasEl NoDt _ V) by (rewrite Hk; discriminate).
+  { rewrite (spec_parent doc Hinv Hshape).
+    2:{ apply (view_T (S (length pre))); [rewrite Nat2N.id; lia | exact V | rewrite Hk; discriminate | rewrite Hk; discriminate]. }
     unfold XDoc.parent_node. rewrite G, row_parent. cbn [dom_parent]. rewrite Hb, K, Hown. cbn [node_ix option_map].
     rewrite (node_pos F merged s T pre1 _ _ E1). reflexivity. }
   assert (Hname : n_name (getd doc (N.of_nat (length pre))) =
